@@ -136,7 +136,14 @@ pub fn search_ops(fast: bool, seed: u64, budget: u64) -> i32 {
         };
         if init.is_empty() { init.push(1); }
         let nops = if round % 5 == 4 { 5200 } else if n >= 60000 { 400 } else { 1 + rng.below(40) as usize };
-        let ops: Vec<(u8, u8)> = (0..nops).map(|_| (if rng.below(8) == 0 { b'p' } else { b'r' }, rng.byte_biased())).collect();
+        let mut ops: Vec<(u8, u8)> = (0..nops).map(|_| (if rng.below(8) == 0 { b'p' } else { b'r' }, rng.byte_biased())).collect();
+        // a window GROWN BY PUSHES from a tiny start (1 or 3 bytes -> 700 / 2000), then slid past the 5000-operation mark with
+        // large outgoing bytes: whatever `new` precomputes for its initial length is stale by then
+        if round < 4 {
+            init = vec![0xFFu8; if round % 2 == 0 { 1 } else { 3 }];
+            let grow = if round < 2 { 700 } else { 2000 };
+            ops = std::iter::repeat((b'p', 0xFFu8)).take(grow).chain(std::iter::repeat((b'r', 0xFFu8)).take(5200 - grow)).chain((0..200).map(|i| (b'r', (i * 37 % 256) as u8))).collect();
+        }
         if let Some(what) = run_program(fast, &init, &ops) {
             // shrink ops to the failing prefix
             let mut k = ops.len();
